@@ -428,12 +428,12 @@ func selftestOn() bool { return selftestEnv == "1" }
 func finishCLI(r *Result, leg string, cs cliCase, _ string, ds *fileh.DiffSet, nRows, cells int, content []byte, replay map[string]interface{}) {
 	r.count(leg+"/"+cs.Kind+"/rows_compared", nRows)
 	r.count(leg+"/"+cs.Kind+"/cells_compared", cells)
+	if nRows >= 2 && cells > 0 && ds.Hard() <= 50 {
+		r.Nontrivial = append(r.Nontrivial, cs.Kind+"|"+hashBytes(content)+"|"+fmt.Sprint(replay["chunking_key"]))
+	}
 	if !ds.Empty() {
 		reportDiffs(r, leg, cs.Kind, ds, content, "", replay)
 		return
-	}
-	if nRows >= 2 && cells > 0 {
-		r.Nontrivial = append(r.Nontrivial, cs.Kind+"|"+hashBytes(content)+"|"+fmt.Sprint(replay["chunking_key"]))
 	}
 	r.Sample = map[string]interface{}{"id": cs.ID, "kind": cs.Kind, "sql": replay["sql"], "rows": nRows, "bytes": len(content), "chunking": replay["chunking"], "pause": replay["pause"], "cells_compared": cells}
 }
